@@ -492,11 +492,26 @@ pub fn run(args: &Args, report: &mut Report) {
 
         // ---- position requests at (a sample of) every token
         let grid = docs::position_grid(&text, &mut rng, if thorough { 40 } else { 14 });
-        for (i, p) in grid.iter().enumerate() {
+        // dense sweep for the cursor-dependent clauses (selection ranges, completion edits): every UTF-16 column of
+        // short documents and of the lines holding comments / strings / trigger characters — boundaries *inside* a
+        // token (markup items of a doc description, string content) are not token boundaries
+        let mut dense = docs::dense_positions(&text, text.len() > 160);
+        let cap = if thorough { 1500 } else { 70 };
+        while dense.len() > cap {
+            let i = rng.below(dense.len());
+            dense.swap_remove(i);
+        }
+        dense.retain(|p| !grid.contains(p));
+        cx.report.add("dense_positions", dense.len() as u64);
+        let plist: Vec<((u32, u32), bool)> = grid.iter().map(|p| (*p, false)).chain(dense.iter().map(|p| (*p, true))).collect();
+        for (i, (p, is_dense)) in plist.iter().enumerate() {
             let in_doc = doc.pos_in_doc((p.0 as u64, p.1 as u64));
             for method in ["textDocument/selectionRange", "textDocument/completion", "textDocument/rename", "textDocument/hover",
                 "textDocument/definition", "textDocument/references", "textDocument/documentHighlight", "textDocument/prepareRename",
                 "textDocument/prepareCallHierarchy", "textDocument/signatureHelp", "textDocument/implementation"] {
+                if *is_dense && !matches!(method, "textDocument/selectionRange" | "textDocument/completion") {
+                    continue;
+                }
                 if !thorough && i % 2 == 1 && matches!(method, "textDocument/references" | "textDocument/implementation" | "textDocument/hover") {
                     continue;
                 }
@@ -519,10 +534,7 @@ pub fn run(args: &Args, report: &mut Report) {
                                     cx.fail(format!("{method}: selection ranges do not strictly grow (equal consecutive ranges): {ch:?}"), &text, method, &params, Some("selection-range-equal-steps"));
                                 }
                                 if ch.len() <= 200 {
-                                    let mut d = ch.clone();
-                                    d.dedup();
-                                    let ds = d.windows(2).all(|w| contains(w[1], w[0]) && w[1] != w[0]);
-                                    cx.tie(format!("lspshape.chain {}", ranges_arg(&ch)), format!("ok nested={nested} strict={strict} dedupStrict={ds}"),
+                                    cx.tie(format!("lspshape.chain {}", ranges_arg(&ch)), format!("ok nested={nested} strict={strict} growStrict=true"),
                                         json!({"text": text, "method": method, "params": params}));
                                 }
                             }
@@ -535,14 +547,11 @@ pub fn run(args: &Args, report: &mut Report) {
                             cx.report.add("completion_items", a.len() as u64);
                             for it in a {
                                 if let Some(te) = it.get("textEdit") {
-                                    let r = te.get("range").and_then(range).or_else(|| te.get("insert").and_then(range));
-                                    if let Some(r) = r {
-                                        let cur = (p.0 as u64, p.1 as u64);
-                                        let bad = r.0.0 != r.1.0 || (in_doc && !(r.0 <= cur && cur <= r.1));
-                                        if bad {
-                                            cx.fail(format!("{method}: item {:?}: main edit range {r:?} is not a single-line range containing the cursor {cur:?}", it.get("label")), &text, method, &params, None);
-                                            break;
-                                        }
+                                    let rs: Vec<R> = ["range", "insert", "replace"].iter().filter_map(|k| te.get(*k).and_then(range)).collect();
+                                    let cur = (p.0 as u64, p.1 as u64);
+                                    if let Some(r) = rs.iter().find(|r| r.0.0 != r.1.0 || (in_doc && !(r.0 <= cur && cur <= r.1))) {
+                                        cx.fail(format!("{method}: item {:?}: main edit range {r:?} is not a single-line range containing the cursor {cur:?}", it.get("label")), &text, method, &params, None);
+                                        break;
                                     }
                                 }
                             }
